@@ -2039,6 +2039,15 @@ class Executor:
             return self.count_true(v.arr, v.len, st)
         raise VCError("np.sum of a non-boolean array")
 
+    def x_np_array(self, e, st):
+        # np.array(list of scalars): the same finite sequence (assumed: float64/int64 conversion of each entry is exact, listed as an assumption)
+        if len(e.args) != 1 or any(kw.arg != "dtype" for kw in e.keywords):
+            raise VCError("np.array with unsupported arguments")
+        v = st.deref(self.eval(e.args[0], st))
+        if isinstance(v, SeqV):
+            return v
+        raise VCError("np.array of a non-list")
+
     def x_scipy_linalg_norm(self, e, st):
         v = st.deref(self.eval(e.args[0], st))
         if not isinstance(v, SeqV):
